@@ -220,3 +220,150 @@ def writehist_drift(programs, traces, jobs):
 def writehist_rejecting_programs(tier, seed):
     """The histories that contain a refused assignment (C20: as if the call had never been made)."""
     return [p for p in writehist_programs(tier, seed) if any(m['k'] == 'reject_cast' for m in p['meta']['model'])]
+
+
+# ------------------------------------------------------------------------------------------------------------------
+# spec/DerivedDefaults.tla: the defaults the library fills into the user's attributes at a write (LONG-NAME, DIMENSION,
+# ELEMENT-LIMIT of a channel, DIMENSION of a parameter) over histories of assignments and writes
+# ------------------------------------------------------------------------------------------------------------------
+def _dd_tlc(cfg, simulate=None, seed=0, depth=9):
+    kw = {'simulate': simulate, 'depth': depth, 'extra': ('-seed', str(seed))} if simulate else {}
+    r = run_tlc('DerivedDefaults.tla', cfg, cwd=SPEC, workers=1, coverage=False, heap='2g', timeout=1800, **kw)
+    hs = [v[1] for v in extract_prints(r['raw'], 'HIST')]
+    if not hs or (not simulate and not r['completed']):
+        raise MachineryError(f'DerivedDefaults ({cfg}) produced no history:\n' + r['tail'])
+    seen, out = set(), []
+    for h in hs:
+        k = repr(h)
+        if k not in seen:
+            seen.add(k)
+            out.append(h)
+    return out, {'states': r['states'], 'distinct': r['distinct']}
+
+
+def _dd_values(shape):
+    return L(I(1)) if shape == 1 else L(L(*[I(j + 1) for j in range(shape)]))
+
+
+def _dd_skeleton(p, fid, f):
+    p.file(fid, vrl=512)
+    lf = p.lf(fid, lf=fid, fh_id='DEFAULTS-HISTORY')
+    p.origin(lf, name='O')
+    kw = {}
+    if f.get('long'):
+        kw['long_name'] = S(f['long'])
+    if f.get('dim'):
+        kw['dimension'] = L(I(f['dim']))
+    if f.get('lim'):
+        kw['element_limit'] = L(I(f['lim']))
+    ch = p.channel(lf, f.get('name', 'VA'), dataset_name='dset', **kw)
+    p.frame(lf, 'FR', [ch])
+    z = p.add(lf, 'zone', 'Z')
+    pkw = {'dimension': L(I(f['pdim']))} if f.get('pdim') else {}
+    par = p.add(lf, 'parameter', 'PAR', zones=L(R(z)), values=_dd_values(f.get('shape', 1)), **pkw)
+    return {'lf': lf, 'ch': ch, 'par': par}
+
+
+def _dd_write(p, fid, o, op, fname, arrays):
+    wd = op['wd']
+    if wd not in arrays:
+        a = (np.arange(6) * 3 + 1).astype('float64')
+        arrays[wd] = p.array(a if wd == 1 else np.stack([a + j for j in range(wd)], axis=1))
+    valid = bool(op['valid'])
+    p.write(fid, route='dict', data_arrays={o['ch']: arrays[wd]}, fname=fname, valid=valid, either=not valid)
+
+
+def defaults_program(pid, hist):
+    p = Prog(pid, {'kind': 'defaultshist', 'model': hist})
+    o = _dd_skeleton(p, 1, {})
+    final, arrays, nw, last = {}, {}, 0, None
+    for op in hist:
+        k = op['k']
+        if k == 'rename':
+            p.rename(o['ch'], op['name'])
+            final['name'] = op['name']
+        elif k == 'pin_long':
+            p.set(o['ch'], 'long_name', S(op['v']))
+            final['long'] = op['v']
+        elif k == 'pin_dim':
+            p.set(o['ch'], 'dimension', L(I(op['w'])))
+            final['dim'] = op['w']
+        elif k == 'pin_lim':
+            p.set(o['ch'], 'element_limit', L(I(op['w'])))
+            final['lim'] = op['w']
+        elif k == 'set_shape':
+            p.set(o['par'], 'values', _dd_values(op['s']))
+            final['shape'] = op['s']
+        elif k == 'pin_pdim':
+            p.set(o['par'], 'dimension', L(I(op['s'])))
+            final['pdim'] = op['s']
+        elif k == 'write':
+            nw += 1
+            _dd_write(p, 1, o, op, f'w{nw}.dlis', arrays)
+            p.steps.append({'op': 'probe', 'items': [{'obj': o['ch'], 'path': ['long_name', 'value']},
+                                                      {'obj': o['ch'], 'path': ['dimension', 'value']},
+                                                      {'obj': o['ch'], 'path': ['element_limit', 'value']},
+                                                      {'obj': o['par'], 'path': ['dimension', 'value']}]})
+            last = op
+        else:
+            raise MachineryError(f'unknown model operation {k}')
+    p.next_proc(fresh=True)
+    o = _dd_skeleton(p, 101, final)
+    _dd_write(p, 101, o, last, 'fresh.dlis', {})
+    return p.build()
+
+
+def defaults_programs(tier, seed, n=None):
+    import random
+    rng = random.Random(f'ddefaults-{tier}-{seed}')
+    hs, st = _dd_tlc('MC_DerivedDefaults_gen.cfg', simulate=f'num={n or (150 if tier == "quick" else 3000)}', seed=3000 + seed)
+    es, st2 = _dd_tlc('MC_DerivedDefaults_enum.cfg')
+    es = sorted(es, key=repr)
+    exhaustive = tier != 'quick'
+    if tier == 'quick':
+        es = rng.sample(es, min(len(es), 200))
+    progs = [defaults_program(f'D-hist-{i}', h) for i, h in enumerate(hs)]
+    have = {repr(h) for h in hs}
+    for i, h in enumerate(es):
+        if repr(h) not in have:
+            q = defaults_program(f'D-enum-{i}', h)
+            q['meta']['exhaustive'] = exhaustive
+            progs.append(q)
+    for p in progs:
+        p['meta']['gen_states'] = {'states': st['states'] + st2['states'], 'distinct': st['distinct'] + st2['distinct']}
+    return progs
+
+
+def defaults_failing_programs(tier, seed):
+    """The histories with a refused write before the last one (C20: once the cause is removed, the file of a fresh specification)."""
+    return [p for p in defaults_programs(tier, seed) if any(m['k'] == 'write' and not m['valid'] for m in p['meta']['model'])]
+
+
+def _dd_show(v, none):
+    return 'None' if v == none else (v if isinstance(v, str) else f'[{v}]')
+
+
+def defaults_drift(programs, traces, jobs):
+    """The model's slots after every write, and whether the write is refused, against the live objects."""
+    drift, n = [], 0
+    byid = {p['id']: p for p in programs}
+    for t in traces:
+        p = byid[t['id']]
+        if p.get('meta', {}).get('kind') != 'defaultshist':
+            continue
+        evs = [e for e in t['events'] if e.get('proc', 1) == 1]
+        probes = [e for e in evs if e['op'] == 'probe']
+        wevs = [e for e in evs if e['op'] == 'write']
+        writes = [m for m in p['meta']['model'] if m['k'] == 'write']
+        if len(probes) != len(writes) or len(wevs) != len(writes):
+            drift.append(f"DerivedDefaults: scenario {t['id']}: {len(writes)} writes in the model, {len(wevs)} / {len(probes)} recorded")
+            continue
+        for m, e, w in zip(writes, probes, wevs):
+            n += 1
+            pr = m['proj']
+            want = [_dd_show(pr['long'], ''), _dd_show(pr['dim'], 0), _dd_show(pr['lim'], 0), _dd_show(pr['pdim'], 0)]
+            if e['vals'] != want or (w['outcome'] == 'raised') != bool(m['raises']):
+                drift.append(f"DerivedDefaults: scenario {t['id']} write width {m['wd']}: (LONG-NAME, DIMENSION, ELEMENT-LIMIT, PARAMETER DIMENSION; refused) "
+                             f"model={want};{bool(m['raises'])} code={e['vals']};{w['outcome'] == 'raised'} {w.get('exc', '')[:80]}")
+                break
+    return drift, {'states': n, 'distinct': n}
